@@ -201,9 +201,9 @@ class Prover:
         self.payload_facts = payload_facts or {}
         self._stack = set()
 
-    def _opt(self, x):
+    def _opt(self, phi, x):
         """prover for reasoning about one option x of a phi: the facts of x's defining block hold in addition"""
-        extra = self.option_facts.get(x)
+        extra = self.option_facts.get((phi, x))
         if not extra:
             return self
         p = self.with_facts(extra)
@@ -270,7 +270,7 @@ class Prover:
                 if self._payload_le(a[2][0], b, depth) and self.le(a[2][1], b, depth + 1):
                     return True
         if a[0] == "phi":
-            if all(self._opt(x).le(x, b, depth + 1) for x in a[1]):
+            if all(self._opt(a, x).le(x, b, depth + 1) for x in a[1]):
                 return True
         if a[0] == "bin" and a[1] == "Sub":
             # x - y <= x (when it does not underflow, which is a separate obligation)
@@ -286,7 +286,7 @@ class Prover:
             if m == "saturating_add" and (self.le(a, b[2][0], depth + 1) or self.le(a, b[2][1], depth + 1)):
                 return True
         if b[0] == "phi":
-            if all(self._opt(x).le(a, x, depth + 1) for x in b[1]):
+            if all(self._opt(b, x).le(a, x, depth + 1) for x in b[1]):
                 return True
         if b[0] == "bin" and b[1] == "Add":
             # a <= x + y if a <= x (no-overflow is a separate obligation)
